@@ -57,6 +57,8 @@ const REPEAT_BOUND: u64 = 900_007;
 const DIV_BOUND: u64 = 600_011;
 /// bound used by the head probe (`let hq = <template>;` as first statement)
 const HEAD_BOUND: u64 = 400_009;
+/// bound used by the planted body-less `while((random(SPIN_BOUND) & 1))`
+const SPIN_BOUND: u64 = 300_007;
 
 struct Plan {
     /// row ids of the two planted rows `(random(RESET_BOUND))` / resetRandom / `(random(RESET_BOUND))`
@@ -80,12 +82,14 @@ struct Plan {
     failing_division: bool,
     /// the first statement is `let hq = <template>;`: the bounds of the draws it makes, in order
     head_probe: Option<Vec<u64>>,
+    /// a top-level `while((random(SPIN_BOUND) & 1))` without any statement in its body
+    spin_while: bool,
 }
 
 /// Add the probe inputs RP0 (64 bit) and RB0, RB1 (1 bit each) in front of the header; rows
 /// that carry a random probe lose their X / C entries, so that one evaluation is one item.
 fn plant(b: &mut Built, ch: &mut Ch) -> Plan {
-    let mut plan = Plan { reset_pair: None, value_probe: vec![], bits_probe: vec![], virtual_probe: false, empty_loop: false, while_probe: false, loop_reset: None, zero_probe: vec![], repeat_probe: None, failing_division: false, head_probe: None };
+    let mut plan = Plan { reset_pair: None, value_probe: vec![], bits_probe: vec![], virtual_probe: false, empty_loop: false, while_probe: false, loop_reset: None, zero_probe: vec![], repeat_probe: None, failing_division: false, head_probe: None, spin_while: false };
     for (k, (n, bits)) in [("RP0", 64usize), ("RB0", 1), ("RB1", 1)].iter().enumerate() {
         b.sigs.insert(k, Sig { name: n.to_string(), bits: *bits, kind: Kind::In(InVal::Val(0)) });
         b.prog.header.insert(k, n.to_string());
@@ -163,6 +167,14 @@ fn plant(b: &mut Built, ch: &mut Ch) -> Plan {
         b.prog.stmts.insert(0, Stmt::Let("wq".into(), Expr::lit(2)));
         plan.while_probe = true;
     }
+    // One case in six: `while((random(SPIN_BOUND) & 1))` / `end while` as first statement - nothing in its body, nothing
+    // changes between two evaluations of its condition except the draw itself. It is left when a draw is even, and only
+    // then: all draws with that bound but the last are odd, the last is even.
+    if ch.chance(1, 6) {
+        let cond = Expr::Group(Box::new(Expr::bin(BinOp::And, Expr::Random(Box::new(Expr::lit(SPIN_BOUND))), Expr::lit(1))));
+        b.prog.stmts.insert(0, Stmt::While(cond, vec![]));
+        plan.spin_while = true;
+    }
     // In a third of the cases the program starts with: a row showing random(RESET_BOUND),
     // `resetRandom;`, a second such row. Both are executed unconditionally and the first draw
     // of the run is the first row's, so the second row must show the same value.
@@ -196,7 +208,7 @@ fn plant(b: &mut Built, ch: &mut Ch) -> Plan {
         // legal bound 2 included, so the run's log must begin with exactly these draws, in this order.
         let r = |b: u64| Expr::Random(Box::new(Expr::lit(b)));
         let h = HEAD_BOUND;
-        let (e, bounds): (Expr, Vec<u64>) = match ch.upto(12) {
+        let (e, bounds): (Expr, Vec<u64>) = match ch.upto(15) {
             0 => (r(2), vec![2]),
             1 => (Expr::bin(BinOp::And, Expr::lit(0), r(h)), vec![h]),
             2 => (Expr::bin(BinOp::Mul, Expr::lit(0), r(h)), vec![h]),
@@ -208,7 +220,11 @@ fn plant(b: &mut Built, ch: &mut Ch) -> Plan {
             8 => (Expr::un(UnOp::Not, r(2)), vec![2]),
             9 => (Expr::Ite(Box::new(r(2)), Box::new(r(h)), Box::new(r(h))), vec![2, h]),
             10 => (Expr::bin(BinOp::Rem, Expr::lit(0), r(h)), vec![h]),
-            _ => (Expr::bin(BinOp::Lt, r(h), r(2)), vec![h, 2]),
+            11 => (Expr::bin(BinOp::Lt, r(h), r(2)), vec![h, 2]),
+            // (two operands that are the same expression, token for token, are two evaluations)
+            12 => (Expr::bin(BinOp::Xor, r(h), r(h)), vec![h, h]),
+            13 => (Expr::bin(BinOp::Eq, r(2), r(2)), vec![2, 2]),
+            _ => (Expr::bin(BinOp::Sub, Expr::Group(Box::new(Expr::bin(BinOp::Add, r(h), Expr::lit(1)))), Expr::Group(Box::new(Expr::bin(BinOp::Add, r(h), Expr::lit(1))))), vec![h, h]),
         };
         b.prog.stmts.insert(0, Stmt::Let("hq".into(), Expr::Group(Box::new(e))));
         plan.head_probe = Some(bounds);
@@ -258,7 +274,7 @@ impl Property for C17 {
         "C17"
     }
     fn rule(&self) -> &'static str {
-        "profile `random`: flow programs with random(e) in row entries, let, bounds, ite conditions and branches, nested in its own argument, in a virtual signal; bounds >= 2 by construction (2, small, (e&7)+2, 2^k up to 2^62); resetRandom at any statement position; seeds {0, 1, u64::MAX, random} forced through the seed hook; planted probes: `(random(B_r))` in a 64-bit input and `bits(2, random(B_r+1))` in two 1-bit inputs with a bound unique to the source row r (half of such rows keep their X/C entries: the g items of one evaluation then all show the one value drawn for it), `bits(0, random(Z_r))` in front of one row in six (no column, still one draw per evaluation), a planted `repeat(3)` over a row of literals and `(ite(1, random(900007), 0))` (three evaluations, three draws), `let dq = ((random(600011)) / 0);` as first statement where no reset construct is planted (one error item, one draw: the dividend is evaluated; the caller goes on) or instead `let hq = <template>;` with one of twelve templates whose draws are known whatever is drawn (`random(2)`, `0 & random(H)`, `0 * random(H)`, `~0 | random(H)`, `random(2) + random(3)`, `-random(2)`, `!random(2)`, `0 >> random(H)`, `0 % random(H)`, `ite(random(2), random(H), random(H))`, ...: every operand of an operator is evaluated, the smallest legal bound included, so the log must begin with exactly those bounds), `declare VR = random(999983)`, a `row / resetRandom; / row` triple with random(500009) at the top (or instead, as the very first statements of the text, `loop(rz, 2)` / `resetRandom;` / such a row / `end loop`, where no `random` stands before the `resetRandom;` in the text: both passes show the same value), a body-less `loop(ez, (random(700001) & 1))` as first statement (its bound is evaluated once on entry: exactly one draw with that bound), a `while` counting a variable down from 2 whose condition draws (evaluated for 2, 1, 0: exactly three draws), and random(7919) in unselected branches of constant-condition ite. Oracle (self-consistent, on the crate's own event log): every random evaluation is exactly one generator draw (GenDraw, Draw pairs), 0 <= value < bound; after every Reset the values repeat those drawn from the start of the run over the longest common prefix of the bound sequences; the same seed gives the same log; no draw with bound 7919 (lazy ite); for each probed row the number of draws with its bound equals the number of its evaluations (items / g, the last one possibly cut by the cap), and each item shows exactly the value drawn for its evaluation (resp. its two low bits): one draw per evaluation, used as if it were a literal; VR is drawn once per checked row and shows the drawn value; and a straight-line control program that performs the same sequence of random(bound) / resetRandom with the same seed draws exactly the same values (the draws are those of the run's generator, in order). In a third of the cases two or three iterators over the same test are alive at once and stepped alternately by a generated schedule (same seed, same script): each yields exactly the items of the run on its own (every run has its own generator). Non-trivial: >= 2 draws and (a reset followed by a draw, or a checked probe, or a lazy sentinel present); distinct by source + signals + driver + seed."
+        "profile `random`: flow programs with random(e) in row entries, let, bounds, ite conditions and branches, nested in its own argument, in a virtual signal; bounds >= 2 by construction (2, small, (e&7)+2, 2^k up to 2^62); resetRandom at any statement position; seeds {0, 1, u64::MAX, random} forced through the seed hook; planted probes: `(random(B_r))` in a 64-bit input and `bits(2, random(B_r+1))` in two 1-bit inputs with a bound unique to the source row r (half of such rows keep their X/C entries: the g items of one evaluation then all show the one value drawn for it), `bits(0, random(Z_r))` in front of one row in six (no column, still one draw per evaluation), a planted `repeat(3)` over a row of literals and `(ite(1, random(900007), 0))` (three evaluations, three draws), `let dq = ((random(600011)) / 0);` as first statement where no reset construct is planted (one error item, one draw: the dividend is evaluated; the caller goes on) or instead `let hq = <template>;` with one of twelve templates whose draws are known whatever is drawn (`random(2)`, `0 & random(H)`, `0 * random(H)`, `~0 | random(H)`, `random(2) + random(3)`, `-random(2)`, `!random(2)`, `0 >> random(H)`, `0 % random(H)`, `ite(random(2), random(H), random(H))`, ...: every operand of an operator is evaluated, the smallest legal bound included, so the log must begin with exactly those bounds), `declare VR = random(999983)`, a `row / resetRandom; / row` triple with random(500009) at the top (or instead, as the very first statements of the text, `loop(rz, 2)` / `resetRandom;` / such a row / `end loop`, where no `random` stands before the `resetRandom;` in the text: both passes show the same value), a body-less `loop(ez, (random(700001) & 1))` as first statement (its bound is evaluated once on entry: exactly one draw with that bound), a body-less `while((random(S) & 1))` (one case in six: left when a draw is even and only then), a `while` counting a variable down from 2 whose condition draws (evaluated for 2, 1, 0: exactly three draws), and random(7919) in unselected branches of constant-condition ite. Oracle (self-consistent, on the crate's own event log): every random evaluation is exactly one generator draw (GenDraw, Draw pairs), 0 <= value < bound; after every Reset the values repeat those drawn from the start of the run over the longest common prefix of the bound sequences; the same seed gives the same log; no draw with bound 7919 (lazy ite); for each probed row the number of draws with its bound equals the number of its evaluations (items / g, the last one possibly cut by the cap), and each item shows exactly the value drawn for its evaluation (resp. its two low bits): one draw per evaluation, used as if it were a literal; VR is drawn once per checked row and shows the drawn value; and a straight-line control program that performs the same sequence of random(bound) / resetRandom with the same seed draws exactly the same values (the draws are those of the run's generator, in order). In a third of the cases two or three iterators over the same test are alive at once and stepped alternately by a generated schedule (same seed, same script): each yields exactly the items of the run on its own (every run has its own generator). Non-trivial: >= 2 draws and (a reset followed by a draw, or a checked probe, or a lazy sentinel present); distinct by source + signals + driver + seed."
     }
     fn cases(&self, tier: Tier) -> u64 {
         match tier {
@@ -267,7 +283,7 @@ impl Property for C17 {
         }
     }
     fn required_classes(&self) -> Vec<&'static str> {
-        vec!["draws>=2", "reset-then-draw", "bound=2", "bound>=2^32", "virtual-probe-checked", "seed=0", "seed=max", "replayed-prefix>=2", "value-probe-checked", "bits-probe-checked", "lazy-sentinel-planted", "probe-in-loop", "control-program-compared", "planted-reset-checked", "empty-loop-bound-draw-checked", "while-condition-draws-checked", "interleaved-iterators-compared", "probe-in-expanded-row", "planted-reset-in-loop-checked", "zero-width-bits-probe-checked", "planted-repeat-checked", "planted-failing-division-checked", "head-probe-checked"]
+        vec!["draws>=2", "reset-then-draw", "bound=2", "bound>=2^32", "virtual-probe-checked", "seed=0", "seed=max", "replayed-prefix>=2", "value-probe-checked", "bits-probe-checked", "lazy-sentinel-planted", "probe-in-loop", "control-program-compared", "planted-reset-checked", "empty-loop-bound-draw-checked", "while-condition-draws-checked", "interleaved-iterators-compared", "probe-in-expanded-row", "planted-reset-in-loop-checked", "zero-width-bits-probe-checked", "planted-repeat-checked", "planted-failing-division-checked", "head-probe-checked", "spin-while-checked", "spin-while-went-round"]
     }
     fn run(&self, s: &Streams) -> CaseOut {
         let mut out = CaseOut::new();
@@ -365,6 +381,19 @@ impl Property for C17 {
                 out.fail(
                     "c17:head-probe-draws",
                     format!("the program starts with a `let hq = ..;` whose evaluation makes draws with the bounds {want:?}, in this order, whatever values are drawn; the run's log begins with draws of bounds {got:?}"),
+                );
+                return out;
+            }
+        }
+        if plan.spin_while {
+            let spins: Vec<i64> = all.iter().filter(|(b, _)| *b == SPIN_BOUND as i64).map(|(_, v)| *v).collect();
+            out.class("spin-while-checked");
+            out.class_if(spins.len() >= 2, "spin-while-went-round");
+            let ok = !spins.is_empty() && spins.iter().rev().skip(1).all(|v| v & 1 == 1) && spins.last().map(|v| v & 1 == 0).unwrap_or(false);
+            if !real.items.is_empty() && !ok {
+                out.fail(
+                    "c17:spin-while",
+                    format!("the program holds a top-level `while((random({SPIN_BOUND}) & 1))` without any statement in its body: it is left when a draw is even and only then, so all draws with that bound but the last are odd and the last is even; the log has {spins:?} and the run's first item is {:?}", real.items.first().map(|i| i.short())),
                 );
                 return out;
             }
